@@ -226,17 +226,30 @@ func verifRunReplay(harnesses map[string]func()) {
 	if err := json.Unmarshal(b, &jobs); err != nil {
 		panic(err)
 	}
-	var runs []verifRun
-	for _, j := range jobs {
-		fn := harnesses[j.W.Harness]
-		if fn == nil {
+	// results are appended one JSON line per job so that a crash of the process (an uncaught panic in
+	// a goroutine of the code under test) loses only the job that caused it
+	skip, _ := strconv.Atoi(os.Getenv("VERIF_SKIP"))
+	f, err := os.OpenFile(os.Getenv("VERIF_OUT"), os.O_CREATE|os.O_WRONLY|os.O_APPEND, 0644)
+	if err != nil {
+		panic(err)
+	}
+	defer f.Close()
+	for i, j := range jobs {
+		if i < skip {
 			continue
 		}
+		fn := harnesses[j.W.Harness]
+		if fn == nil {
+			fmt.Fprintf(f, "{\"id\":%q,\"absent\":true}\n", j.ID)
+			continue
+		}
+		fmt.Fprintf(f, "{\"id\":%q,\"started\":true}\n", j.ID)
+		f.Sync()
 		r := verifRunOne(fn, j.W)
 		r.ID = j.ID
-		runs = append(runs, r)
+		out, _ := json.Marshal(r)
+		f.Write(append(out, '\n'))
+		f.Sync()
 	}
-	out, _ := json.Marshal(runs)
-	os.WriteFile(os.Getenv("VERIF_OUT"), out, 0644)
 }
 `
